@@ -633,6 +633,35 @@ func junitFile(r *rand.Rand) javagen.File {
 	return f
 }
 
+// namesakes: classes of ONE simple name in several packages, and a class of yet another package that uses the name
+// without importing it (a tree that does not compile as it stands, as legacy trees often do not): whichever class
+// the tool takes the name for, it must take the same one in every run
+func namesakeFiles(r *rand.Rand) []javagen.File {
+	var out []javagen.File
+	name := []string{"Worker", "Handler", "Config"}[r.Intn(3)]
+	pk := []string{"alpha", "beta", "gamma", "delta", "omega"}
+	r.Shuffle(len(pk), func(a, b int) { pk[a], pk[b] = pk[b], pk[a] })
+	for _, p := range pk[:3+r.Intn(3)] {
+		f := javagen.File{Id: "ns-" + p, PathKind: "main", Dirs: "ns/" + p, Pkg: "ns." + p}
+		f.Unit = javagen.Unit{Kind: "class", Name: name}
+		f.Unit.Members = []javagen.Member{{Kind: "method", Name: "run", Type: "void", Mods: []string{"public"}},
+			{Kind: "method", Name: "stop", Type: "void", Mods: []string{"public"}}}
+		out = append(out, f)
+	}
+	u := javagen.File{Id: "ns-user", PathKind: "main", Dirs: "ns/app", Pkg: "ns.app"}
+	u.Unit = javagen.Unit{Kind: "class", Name: "Boss"}
+	mk := javagen.Expr{K: "new", Type: name, Args: []javagen.Expr{}}
+	u.Unit.Members = []javagen.Member{
+		{Kind: "field", Name: "worker", Type: name, Mods: []string{"private"}},
+		{Kind: "method", Name: "work", Type: "void", Mods: []string{"public"}, Body: []javagen.Stmt{
+			callStmt("var", "worker", "run"),
+			{K: "decl", Type: name, Name: "spare", E: &mk},
+			callStmt("var", "spare", "stop"),
+		}},
+	}
+	return append(out, u)
+}
+
 func gen(seed int64, n int, tier string) []interface{} {
 	r := rand.New(rand.NewSource(seed))
 	runs := 40
@@ -663,6 +692,7 @@ func gen(seed int64, n int, tier string) []interface{} {
 		}
 		p := javaproj.Gen(r, true)
 		p.Files = append(p.Files, overloadsOnOneLine(r), junitFile(r), serviceFile(r))
+		p.Files = append(p.Files, namesakeFiles(r)...)
 		out = append(out, Case{Case: fmt.Sprintf("java-%d-%d", seed, k), Kind: "java", Files: p.Files, Layout: p.Layout, N: runs, History: []GitCommit{}})
 	}
 	return out
